@@ -366,6 +366,78 @@ def onDataSink (own : Option CType) (originSet fromFirstHop : Bool) (pfx : Bytes
     else exitBranch
   | none => exitBranch
 
+/-- `sock_addr == circuit.hop.address`: the FULL (ip, port) address of the delivering peer must equal the first hop's -/
+def fromFirstHop (src hop : Nat × Nat) : Bool := src.1 == hop.1 && src.2 == hop.2
+
+/-! ### the exit socket's outside half (exit_socket.py `enable` / `sendto`): a datagram handed to `sendto` goes to the
+    transport, or waits in the queue until the transports exist, or waits for its host name to be resolved — every
+    resolution is its own anonymous task, so several datagrams for one host can be pending at the same time.
+    Datagrams are represented by an id (their bytes are passed through untouched). -/
+
+inductive XDest
+  | ip (a : Nat)          -- literal address (0 = the null address 0.0.0.0:0)
+  | name (h : Nat)        -- DomainAddress
+  deriving DecidableEq, Repr
+
+structure XSock where
+  ready : Bool := false               -- transports created
+  queue : List (Nat × Nat) := []      -- (datagram, ip) waiting for the transports; deque(maxlen=10)
+  pending : List (Nat × Nat) := []    -- (datagram, host) resolutions in flight
+  out : List (Nat × Nat) := []        -- handed to the transport
+  deriving Repr
+
+def pushCap (x : Nat × Nat) (q : List (Nat × Nat)) : List (Nat × Nat) :=
+  if 10 ≤ q.length then q.drop 1 ++ [x] else q ++ [x]
+
+/-- the tail of `sendto` for a literal address (the null-address filter of `sendto` is not part of this model) -/
+def XSock.sendIp (s : XSock) (i a : Nat) : XSock :=
+  if s.ready then { s with out := s.out ++ [(i, a)] }
+  else { s with queue := pushCap (i, a) s.queue }
+
+inductive XEv
+  | send (i : Nat) (d : XDest)
+  | resolved                      -- the oldest pending resolution completes
+  | transportsReady
+  deriving Repr
+
+def XSock.step (dns : Nat → Nat) (s : XSock) : XEv → XSock
+  | .send i (.ip a) => s.sendIp i a
+  | .send i (.name h) => { s with pending := s.pending ++ [(i, h)] }
+  | .resolved =>
+    match s.pending with
+    | [] => s
+    | (i, h) :: r => ({ s with pending := r }).sendIp i (dns h)
+  | .transportsReady => { s with ready := true, out := s.out ++ s.queue, queue := [] }   -- `while self.queue: sendto(...)`
+
+def XSock.run (dns : Nat → Nat) (s : XSock) (evs : List XEv) : XSock := evs.foldl (XSock.step dns) s
+
+/-- every datagram the socket still holds or has emitted -/
+def XSock.held (s : XSock) : List Nat := (s.out ++ s.queue ++ s.pending).map Prod.fst
+
+def XEv.sentId : XEv → List Nat
+  | .send i _ => [i]
+  | _ => []
+
+/-! ### retiring an exit socket (community.py `remove_exit_socket`): the table entry stays while the socket is still
+    open (during `remove_tunnel_delay`), and both go away together -/
+
+structure ExitNode (A : Aead) where
+  nd : Node A
+  openSocks : List Nat        -- circuit ids of exit sockets whose outside transport is open
+
+def ExitNode.removeStart {A : Aead} (x : ExitNode A) (_cid : Nat) : ExitNode A := x      -- nothing changes yet
+
+def ExitNode.removeFinish {A : Aead} (x : ExitNode A) (cid : Nat) : ExitNode A :=
+  { nd := { x.nd with exits := x.nd.exits.filter (fun p => p.1 != cid) },
+    openSocks := x.openSocks.filter (fun c => c != cid) }
+
+def ExitNode.openSocket {A : Aead} (x : ExitNode A) (cid : Nat) : ExitNode A :=
+  if (List.lookup cid x.nd.exits).isSome then { x with openSocks := cid :: x.openSocks } else x
+
+/-- every open socket is still listed in the routing table (so its return traffic gets encrypted) -/
+def ExitNode.covered {A : Aead} (x : ExitNode A) : Bool :=
+  x.openSocks.all (fun cid => (List.lookup cid x.nd.exits).isSome)
+
 end
 
 /-! ### the toy AEAD: 1 nonce byte, key byte, direction byte, 21 zero bytes, then the message in clear.
